@@ -659,7 +659,7 @@ pub fn gen_fuzz(rec: &mut Recorder, rng: &mut StdRng, n: usize) {
 }
 
 /// Runs of '+'/'-'-delimited segments of a word (an over-approximation of the lexer's float candidates).
-fn candidate_words(w: &str) -> Vec<String> {
+pub fn candidate_words(w: &str) -> Vec<String> {
     let mut segs: Vec<String> = vec![String::new()];
     for c in w.chars() {
         if c == '+' || c == '-' {
@@ -695,7 +695,14 @@ pub fn gen_threads(rec: &mut Recorder, rng: &mut StdRng, iters: usize, nthreads:
         ("x".into(), Value::Int(rng.gen_range(0..5))),
         ("y".into(), Value::String("ab".into())),
         ("zed".into(), Value::Tuple(vec![Value::Int(1), Value::Int(2)])),
+        ("s1".into(), Value::String("Alpha".into())),
+        ("s2".into(), Value::String("bRAVO".into())),
+        ("s3".into(), Value::String(" Charlie ".into())),
     ];
+    // operands of the float primitives the fixed sources below need
+    rec.ints.extend(0..8);
+    rec.floats.extend([1.5, 2.5, 1.0, 3.0]);
+    rec.words.extend(["1.5".to_string(), "2.5".to_string()]);
     let mut c = HashMapContext::<DefaultNumericTypes>::new();
     for (n, b, v) in &behaviours {
         c.set_function(n.clone(), make_function(n, b, Some(v.clone()), &log)).unwrap();
@@ -706,7 +713,15 @@ pub fn gen_threads(rec: &mut Recorder, rng: &mut StdRng, iters: usize, nthreads:
     rec.emit(json!({"ev": "ctx", "slot": 0, "ctx": ctx_json(&vars, &behaviours, false)}));
     let mut sources: Vec<String> = ["x + 1", "f(x) * 2", "g()", "y + \"c\"", "len(y)", "max(x, 3)", "zed", "x = 2", "undefined", "1 / 0",
                                     "if(x > 0, \"p\", \"n\")", "(x, y); x", "str::from(zed)", "contains(zed, 2)", "x < 2 && true", "h(1)",
-                                    "typeof(zed), typeof(y)", "x += 1; x", "min(x, 2, 3) - 1"]
+                                    "typeof(zed), typeof(y)", "x += 1; x", "min(x, 2, 3) - 1",
+                                    // every family of builtins, the same function on different arguments from different threads:
+                                    // process-wide state behind a builtin (a memo, a scratch buffer) shows up as a wrong result
+                                    "str::to_uppercase(s1)", "str::to_uppercase(s2)", "str::to_uppercase(s3)", "str::to_lowercase(s1)",
+                                    "str::to_lowercase(s2)", "str::to_lowercase(s3) + str::to_uppercase(s1)", "str::trim(s3)",
+                                    "str::trim(s3 + s1)", "str::substring(s1, 1, 3)", "str::substring(s2, 2)", "str::from(x) + s2",
+                                    "str::from(zed) + s1", "math::sqrt(x + 1)", "math::sqrt(x + 2)", "floor(1.5) + round(2.5)",
+                                    "bitand(x, 6), bitor(x, 1), shl(x, 2)", "contains_any(zed, (2, 5))", "contains(zed, x)",
+                                    "typeof(s1), len(s2), len(zed)", "math::abs(-x)", "max(x, 1.5), min(2.5, x)"]
         .iter()
         .map(|s| s.to_string())
         .collect();
